@@ -77,6 +77,6 @@ KERNELS = [
        env={"key": ("key", BYTES), "nonce": ("nonce", BYTES), **CST}, calls=CALLS, panic='.error "PANIC"', result=init_result,
        doc="`State::init`: key / nonce layout; slicing beyond the length and `unreachable!()` are the panic value"),
 ]
-HEADER = "import CxVerif.Impl.ChaCha\nnamespace Cx.Extracted.KernelsChaChaRef\nopen Cx Cx.Impl Cx.Impl.ChaCha.Reference\n"
+HEADER = "import CxVerif.Impl.ChaCha\nnamespace Cx.Extracted.KernelsChaChaRef\nopen Cx Cx.Impl Cx.Impl.ChaCha.Reference\nset_option autoImplicit false\n"
 FOOTER = "end Cx.Extracted.KernelsChaChaRef\n"
 LEAN_FILE = "KernelsChaChaRef"
